@@ -327,7 +327,7 @@ class SharedBuild:
 
     def goto_cc(self, j, out, extra):
         o0 = os.path.join(self.work, 'nolib_' + out); o = os.path.join(self.work, out)
-        rc, outp, _, _ = run(['goto-cc', '-o', o0] + j.cfiles + j.cdefs() + list(extra), timeout=900)
+        rc, outp, _, _ = run(['goto-cc', '-D__CPROVER__', '-o', o0] + j.cfiles + j.cdefs() + list(extra), timeout=900)   # unlike cbmc, goto-cc does not predefine __CPROVER__
         if rc != 0:
             raise Inconclusive('goto-cc failed:\n' + outp[-3000:])
         # link CBMC's C library models once here: cbmc would otherwise redo it for every entry (minutes on a large program)
@@ -499,6 +499,8 @@ class Job:
             ra = int(ra); rb = int(rb)
             if rb in (132, 128 + 4):  # SIGILL from a ubsan trap in the bitcode build == assertion in the generated C
                 rb = 1; b = 'ASSERT-FAIL UB in code under test (ubsan trap)'
+            if rb == 134 and 'Assertion' in b:  # SIGABRT from the code's own assert() in the bitcode build == ll___assert_fail in the generated C
+                rb = 1; b = 'ASSERT-FAIL assert() in code under test failed'
             n += 1
             if (ra, a.strip()) != (rb, b.strip()):
                 raise Inconclusive('translator differential mismatch on seed %s: generated-C rc=%s out=%r vs bitcode rc=%s out=%r' % (s, ra, a[-300:], rb, b[-300:]))
@@ -629,6 +631,8 @@ def norm_trap(res):
     rc, out, a, b = res
     if rc in (-4, 132):
         return 1, out + 'ASSERT-FAIL UB in code under test (ubsan trap)\n', a, b
+    if rc in (-6, 134) and 'Assertion' in out:   # the code's own assert() aborted the native bitcode build
+        return 1, out + 'ASSERT-FAIL assert() in code under test failed\n', a, b
     return res
 
 
